@@ -79,8 +79,8 @@ theorem HInv_of_view (s s' : St) (h : hview s' = hview s) (hi : HInv s) : HInv s
   obtain ⟨a1, a2, a3, a4, a5, a6, a7⟩ := hi
   constructor <;> simp only [h1, h2, h3, h4, h5, h6, h7, h8] <;> assumption
 
-theorem HInv_init : HInv init := by
-  constructor <;> simp [init]
+theorem HInv_init (f p : Nat → Nat) : HInv (initSz f p) := by
+  constructor <;> simp [initSz]
 
 set_option maxHeartbeats 4000000 in
 theorem HInv_step (s s' : St) (a : Act) (hi : HInv s) (hs : step s a = some s') : HInv s' := by
@@ -99,7 +99,7 @@ theorem HInv_step (s s' : St) (a : Act) (hi : HInv s) (hs : step s a = some s') 
 
 theorem HInv_reachable (s : St) (hr : Reachable s) : HInv s := by
   induction hr with
-  | init => exact HInv_init
+  | init f p => exact HInv_init f p
   | step s s' a _ hs ih => exact HInv_step s s' a ih hs
 
 /-- the delivered frames only grow -/
@@ -137,8 +137,8 @@ theorem PInv_of_view (s s' : St) (h : hview s' = hview s) (hi : PInv s) : PInv s
   obtain ⟨a1, a2, a3, a4⟩ := hi
   constructor <;> simp only [h1, h2, h3, h4, h5, h6, h7, h8] <;> assumption
 
-theorem PInv_init : PInv init := by
-  constructor <;> simp [init]
+theorem PInv_init (f p : Nat → Nat) : PInv (initSz f p) := by
+  constructor <;> simp [initSz]
 
 set_option maxHeartbeats 4000000 in
 theorem PInv_step' (s s' : St) (a : Act) (hH : HInv s) (hi : PInv s) (hp : PSD s')
@@ -160,7 +160,7 @@ theorem PInv_step' (s s' : St) (a : Act) (hH : HInv s) (hi : PInv s) (hp : PSD s
 
 theorem PInv_reachable (s : St) (hr : Reachable s) : PSD s → PInv s := by
   induction hr with
-  | init => exact fun _ => PInv_init
+  | init f p => exact fun _ => PInv_init f p
   | step s s' a h hs ih =>
     intro hp
     exact PInv_step' s s' a (HInv_reachable s h) (ih (PSD_mono s s' a hs hp)) hp hs
